@@ -5,6 +5,40 @@ use std::path::{Path, PathBuf};
 use std::sync::atomic::{AtomicU64, Ordering};
 use vkit::{bad, enumerate, ok, ok_trivial, Run, Verdict};
 
+/// Lock-free accounting (the machine is shared; a global lock per history serialises the workers): distinct states are recorded in a
+/// bitmap indexed by the low 24 bits of the state hash (a collision can only under-count), transitions in an atomic counter.
+const BITS: usize = 1 << 24;
+static BITMAP: [AtomicU64; BITS / 64] = [const { AtomicU64::new(0) }; BITS / 64];
+static TRANSITIONS: AtomicU64 = AtomicU64::new(0);
+
+fn note(states: Vec<u64>, transitions: u64) {
+    TRANSITIONS.fetch_add(transitions, Ordering::Relaxed);
+    for s in states {
+        let bit = (s as usize) & (BITS - 1);
+        if BITMAP[bit / 64].load(Ordering::Relaxed) >> (bit % 64) & 1 == 0 {
+            BITMAP[bit / 64].fetch_or(1 << (bit % 64), Ordering::Relaxed);
+        }
+    }
+}
+
+fn flush(run: &Run) {
+    let mut set = Vec::new();
+    for (w, word) in BITMAP.iter().enumerate() {
+        let v = word.swap(0, Ordering::Relaxed);
+        if v != 0 {
+            for b in 0..64 {
+                if v >> b & 1 == 1 {
+                    set.push((w * 64 + b) as u64);
+                }
+            }
+        }
+    }
+    run.mc_states_bulk(set);
+    let t = TRANSITIONS.swap(0, Ordering::Relaxed);
+    run.mc_transitions(t);
+    run.mc_validated(t);
+}
+
 /// Which `push()` calls the delegate rejects.
 #[derive(Serialize, Deserialize, Hash, Clone, Debug, PartialEq, Eq)]
 enum Plan {
@@ -145,7 +179,7 @@ fn plans(max_pushes: u8, pairs: bool) -> Vec<Plan> {
     v
 }
 
-fn eval_fs(run: &Run, h: &History, rejected_total: &AtomicU64) -> Verdict {
+fn eval_fs(_run: &Run, h: &History, rejected_total: &AtomicU64) -> Verdict {
     let root = PathBuf::from("/r");
     let mut stack = gix_fs::Stack::new(root.clone());
     let mut rec = Rec { root: root.clone(), plan: h.plan.clone(), push_calls: 0, log: Vec::new(), incoherent: None };
@@ -227,9 +261,7 @@ fn eval_fs(run: &Run, h: &History, rejected_total: &AtomicU64) -> Verdict {
         }
         states.push(vkit::hash_of(&(&model, rec.push_calls, &h.plan)));
     }
-    run.mc_states_bulk(states);
-    run.mc_transitions(h.paths.len() as u64);
-    run.mc_validated(h.paths.len() as u64);
+    note(states, h.paths.len() as u64);
     if rejections > 0 {
         rejected_total.fetch_add(1, Ordering::Relaxed);
         ok(format!("rejections-{}", rejections.min(3)))
@@ -248,7 +280,7 @@ struct WtHistory {
     paths: Vec<String>,
 }
 
-fn eval_wt(run: &Run, h: &WtHistory, rejected_total: &AtomicU64) -> Verdict {
+fn eval_wt(_run: &Run, h: &WtHistory, rejected_total: &AtomicU64) -> Verdict {
     let dir = vkit::scratch::Dir::new("c42wt");
     let root = dir.path().to_owned();
     if let Err(e) = std::fs::write(root.join("f"), b"file") {
@@ -268,7 +300,13 @@ fn eval_wt(run: &Run, h: &WtHistory, rejected_total: &AtomicU64) -> Verdict {
     for (i, path) in h.paths.iter().enumerate() {
         let comps: Vec<&str> = path.split('/').collect();
         let common = model.common(&comps);
-        let expect_rejected = (common..comps.len()).find(|&j| comps[j] == ".git" || (j == 0 && comps[0] == "f" && comps.len() > 1));
+        // the existing file `f` was accepted as a leaf and is now used as a directory: the delegate refuses to announce it as one
+        let transition_refused = common == 1 && model.cur.len() == 1 && model.cur[0] == "f" && !model.top_is_dir && comps.len() > 1;
+        let expect_rejected = if transition_refused {
+            Some(common)
+        } else {
+            (common..comps.len()).find(|&j| comps[j] == ".git" || (j == 0 && comps[0] == "f" && comps.len() > 1))
+        };
         let at = |what: &str| format!("call #{} at_path({path:?}) after {:?}: {what}", i + 1, &h.paths[..i]);
         let res = stack.at_path(Path::new(path), None, &gix_object::find::Never).map(|p| p.path().to_owned());
         match (&res, expect_rejected) {
@@ -281,7 +319,9 @@ fn eval_wt(run: &Run, h: &WtHistory, rejected_total: &AtomicU64) -> Verdict {
             (Ok(_), Some(j)) => return bad("result", at(&format!("succeeded although component #{j} must be rejected"))),
             (Err(e), None) => return bad("result", at(&format!("failed unexpectedly: {e}"))),
         }
-        model.step(&comps, expect_rejected);
+        if !transition_refused {
+            model.step(&comps, expect_rejected);
+        }
         let st = stack.statistics().delegate;
         let open = st.push_directory as i64 - st.pop_directory as i64;
         if open != model.open_dirs().len() as i64 {
@@ -299,9 +339,7 @@ fn eval_wt(run: &Run, h: &WtHistory, rejected_total: &AtomicU64) -> Verdict {
         }
         states.push(vkit::hash_of(&(&model, "wt")));
     }
-    run.mc_states_bulk(states);
-    run.mc_transitions(h.paths.len() as u64);
-    run.mc_validated(h.paths.len() as u64);
+    note(states, h.paths.len() as u64);
     if rejections > 0 {
         rejected_total.fetch_add(1, Ordering::Relaxed);
         ok(format!("wt-rejections-{}", rejections.min(3)))
@@ -312,9 +350,9 @@ fn eval_wt(run: &Run, h: &WtHistory, rejected_total: &AtomicU64) -> Verdict {
 
 pub fn run(run: &'static Run) {
     run.rule(
-        "fs-stack: histories = all sequences of <=3 relative paths over components {a,b,c} with depth <=3 (39 paths) and all sequences of <=4 paths over components {a,b} depth <=3 (14 paths), \
-         each x failure plan {none, k-th push call rejected (k<=6), (thorough) every pair of push calls rejected, component `b` rejected as directory / as leaf / both}; thorough adds all sequences of 4 paths over {a,b,c} x {none, `b` rejected, 2nd push rejected} \
-         and all sequences of 5 paths over {a,b} x single-failure plans; \
+        "fs-stack: histories = all sequences of <=2 (quick) / <=3 (thorough) relative paths over components {a,b,c} with depth <=3 (39 paths), all sequences of <=4 paths over components {a,b} depth <=3 (14 paths) \
+         and all sequences of <=5 / <=6 paths over {a,b} depth <=2 (6 paths), each x failure plan {none, k-th push call rejected (k<=4 quick, k<=6 thorough), (thorough) every pair of push calls rejected, component `b` rejected as directory / as leaf / both}; \
+         thorough adds all sequences of 4 paths over {a,b,c} x {none, `b` rejected, 2nd push rejected} and all sequences of 5 paths over {a,b} depth <=3 x single-failure plans; \
          worktree-stack: all sequences of <=3 / <=4 paths over {a, b, .git (rejected by validation), f (existing file: rejected as directory)} depth <=2 through gix_worktree::Stack::at_path in checkout mode on a real directory; \
          after EVERY call: result, current()/current_relative(), the exact sequence of push() calls, and the set of directories pushed-but-not-popped are compared with the reference model; \
          non-trivial = at least one push was rejected in the history (or the plan is `none`)",
@@ -327,18 +365,22 @@ pub fn run(run: &'static Run) {
 
     let p3 = paths_over(&["a", "b", "c"], 3);
     let p2 = paths_over(&["a", "b"], 3);
+    let p1 = paths_over(&["a", "b"], 2);
     run.sub(
         "fs-stack",
         |emit| {
             // (path alphabet, min len, max len, plans)
             let all = plans(6, true);
             let single = plans(6, false);
+            let quick_plans = plans(4, false);
             let few = vec![Plan::None, Plan::NameB { dir: true, leaf: true }, Plan::Kth(2)];
             let mut configs: Vec<(&Vec<String>, usize, usize, &Vec<Plan>)> = Vec::new();
             if quick {
-                configs.push((&p3, 1, 3, &single));
-                configs.push((&p2, 1, 4, &single));
+                configs.push((&p3, 1, 2, &quick_plans));
+                configs.push((&p2, 1, 4, &quick_plans));
+                configs.push((&p1, 1, 5, &quick_plans));
             } else {
+                configs.push((&p1, 1, 6, &single));
                 configs.push((&p3, 1, 3, &all));
                 configs.push((&p3, 4, 4, &few));
                 configs.push((&p2, 1, 4, &all));
@@ -357,6 +399,7 @@ pub fn run(run: &'static Run) {
         },
         |h: &History| eval_fs(run, h, &rejected_total),
     );
+    flush(run);
     run.require("some histories had rejected pushes", rejected_total.load(Ordering::Relaxed) > 0);
 
     let wt_rejected = AtomicU64::new(0);
@@ -369,5 +412,6 @@ pub fn run(run: &'static Run) {
         },
         |h: &WtHistory| eval_wt(run, h, &wt_rejected),
     );
+    flush(run);
     run.require("some worktree histories had rejected pushes", wt_rejected.load(Ordering::Relaxed) > 0);
 }
